@@ -13,8 +13,8 @@
 
    For every event the module
      (a) applies the system call's effect to the file-system model (always possible);
-     (b) lets the protocol automaton of OffsetsFile (P-actions, with the deviation switches of the
-         faithful configuration) take the corresponding step; an event the automaton cannot take is
+     (b) lets the protocol automaton of OffsetsFile (P-actions, mutant switches off = the code as it
+         is) take the corresponding step; an event the automaton cannot take is
          recorded in `drifts` (the real code no longer follows the modelled protocol), the automaton
          re-synchronises at the next `begin`;
      (c) evaluates the protocol-level properties on the observed history, independently of (b), and
@@ -53,7 +53,7 @@ ResetFsP ==
   /\ base' = [i \in Inodes |-> IF i = 1 THEN <<0>> ELSE <<>>]
   /\ keep' = [i \in Inodes |-> IF i = 1 THEN 1 ELSE 0]
   /\ nextIno' = 2
-  /\ pc' = "idle" /\ fd' = 0 /\ tmpName' = "t1" /\ idx' = 1 /\ buf' = <<>> /\ failed' = {} /\ dev' = {} /\ bad' = {}
+  /\ pc' = "idle" /\ fd' = 0 /\ tmpName' = "t1" /\ idx' = 1 /\ buf' = <<>> /\ failed' = {} /\ bad' = {}
   /\ fds' = [n \in FdNums |-> 0] /\ wfail' = {} /\ taint' = [i \in Inodes |-> {}] /\ lost' = FALSE
   /\ UNCHANGED <<viols, drifts>>
 
@@ -64,7 +64,7 @@ TInit ==
   /\ base = [i \in Inodes |-> IF i = 1 THEN <<0>> ELSE <<>>]
   /\ keep = [i \in Inodes |-> IF i = 1 THEN 1 ELSE 0]
   /\ nextIno = 2
-  /\ pc = "idle" /\ fd = 0 /\ tmpName = "t1" /\ idx = 1 /\ buf = <<>> /\ failed = {} /\ dev = {} /\ bad = {}
+  /\ pc = "idle" /\ fd = 0 /\ tmpName = "t1" /\ idx = 1 /\ buf = <<>> /\ failed = {} /\ bad = {}
   /\ jobs = InitVec /\ held = [j \in Jobs |-> {InitVec[j]}]
   /\ ncommits = 0 /\ nsaves = 0 /\ nfaults = 0 /\ sched = <<>> /\ sfail = {} /\ mid = FALSE /\ crashed = FALSE
   /\ l = 1 /\ fds = [n \in FdNums |-> 0] /\ wfail = {} /\ taint = [i \in Inodes |-> {}] /\ lost = FALSE
@@ -86,7 +86,8 @@ ProtoGuard(e) ==
     [] e.op = "write"  -> pc = "write" /\ fds[e.fd] = fd /\ fd # 0
     [] e.op = "fsync"  -> pc = "sync" /\ fds[e.fd] = fd /\ fd # 0
     [] e.op = "rename" -> pc = "rename" /\ e.name = tmpName /\ e.name2 = "cur" /\ dir[e.name] # 0
-    [] e.op = "close"  -> (pc = "close" \/ (pc = "abort" /\ Site = "generic")) /\ fds[e.fd] = fd /\ fd # 0
+    [] e.op = "unlink" -> pc = "unlink" /\ e.name = tmpName
+    [] e.op = "close"  -> pc = "close" /\ fds[e.fd] = fd /\ fd # 0
     [] OTHER -> FALSE
 
 ProtoStep(e) ==
@@ -94,19 +95,20 @@ ProtoStep(e) ==
     [] e.op = "write"  -> PWrite(e.ok, IF e.ok THEN <<e.w>> ELSE <<>>)
     [] e.op = "fsync"  -> PSync(e.ok)
     [] e.op = "rename" -> PRename(e.ok)
-    [] e.op = "close"  -> IF pc = "close" THEN PClose(e.ok) ELSE PAbort
+    [] e.op = "unlink" -> PUnlink(e.ok)
+    [] e.op = "close"  -> PClose(e.ok)
 
 DriftRec(e) == [tr |-> e.tr, k |-> e.k, op |-> e.op, ok |-> e.ok, pc |-> pc]
 
 FsProto(e) ==
   IF e.op = "begin" THEN
        /\ UNCHANGED fsvars
-       /\ pc' = "open" /\ failed' = {} /\ buf' = <<>> /\ idx' = 1 /\ UNCHANGED <<fd, tmpName, dev, bad>>
+       /\ pc' = "open" /\ failed' = {} /\ buf' = <<>> /\ idx' = 1 /\ UNCHANGED <<fd, tmpName, bad>>
        /\ lost' = FALSE
        /\ drifts' = IF ~lost /\ pc # "idle" THEN Append(drifts, DriftRec(e)) ELSE drifts
   ELSE IF e.op = "end" THEN
        /\ UNCHANGED fsvars
-       /\ pc' = "idle" /\ UNCHANGED <<fd, tmpName, idx, buf, failed, dev, bad>>
+       /\ pc' = "idle" /\ UNCHANGED <<fd, tmpName, idx, buf, failed, bad>>
        /\ lost' = FALSE
        /\ drifts' = IF ~lost /\ pc \notin {"idle", "open"} THEN Append(drifts, DriftRec(e)) ELSE drifts
   ELSE IF ~lost /\ ProtoGuard(e) THEN
@@ -143,7 +145,7 @@ Mon(e) ==
 -----------------------------------------------------------------------------
 TSkip ==       \* the per-job snapshot loop makes no system call
   /\ pc = "snap" /\ pc' = "write"
-  /\ UNCHANGED <<fd, tmpName, idx, buf, failed, dev, bad>> /\ UNCHANGED fsvars /\ UNCHANGED evars /\ UNCHANGED tvars
+  /\ UNCHANGED <<fd, tmpName, idx, buf, failed, bad>> /\ UNCHANGED fsvars /\ UNCHANGED evars /\ UNCHANGED tvars
 
 Consume ==
   /\ pc # "snap" /\ l <= Len(Trace)
